@@ -671,21 +671,20 @@ TRUSTED = [
 ASSUMPTIONS = [
     "whole-function tie of estimateZ0: inputs are finite real arrays of equal length (the code raises RuntimeError otherwise - the length check is part of the description); a nan wind direction fails every comparison in the code and keeps the initial nan, the model has no nan direction",
 ]
-BRIDGE = "KMFunBridge"
 
 
 def run(ctx):
     """translate the current source, compile GenKMFun.v, re-prove Bridge/KMFunBridge.v, check closedness.
-    Returns ({function: placeholder for the skeleton}, all discharged)"""
+    Returns ({function: placeholder for the skeleton}, {function: its bridge file fully discharged})"""
     import re
     try:
         text, acc = translate()
     except TranslateError as e:
         ctx.obligation("gen:GenKMFun.v", False, "whole-function translator failed closed: %s" % e)
-        return {}, False
+        return {}, {}
     except Exception as e:  # noqa: BLE001 - fail closed on anything unforeseen
         ctx.obligation("gen:GenKMFun.v", False, "whole-function translator failed closed: %s: %s" % (type(e).__name__, e))
-        return {}, False
+        return {}, {}
     ctx.cov["km_whole_function"] = {"statements_accounted_for": acc}
     for t in TRUSTED:
         if t not in ctx.trusted:
@@ -693,23 +692,32 @@ def run(ctx):
     for t in ASSUMPTIONS:
         if t not in ctx.assumptions:
             ctx.assumptions.append(t)
-    whole = {f: "GenKMFun.%s, Bridge/KMFunBridge.v" % d for f, d in WHOLE.items() if f in acc}
-    ok = core.run_bridge(ctx, {"GenKMFun.v": text}, [BRIDGE + ".v"])
-    if ok:
-        src = core.strip_coq_comments(open(os.path.join(core.COQ, "Bridge", BRIDGE + ".v")).read())
-        names = re.findall(r"^\s*(?:Lemma|Theorem)\s+([\w']+)", src, re.M)
-        ax = "From Gen Require Import %s.\n" % BRIDGE + "".join(
-            'Goal True. idtac "THEOREM %s". Abort. Print Assumptions %s.\n' % (n, n) for n in names)
-        rc, o, e, dt = ctx.coqc(ctx.write(BRIDGE + "Ax.v", ax))
-        got = core.parse_assumptions(o + "\n" + e)
-        bad = ["%s: %s" % (n, sorted(got[n] - core.AX_REALS) if isinstance(got.get(n), set) else got.get(n, "missing"))
-               for n in names if not (isinstance(got.get(n), set) and got[n] <= core.AX_REALS)]
-        ctx.obligation("closed:" + BRIDGE, rc == 0 and not bad,
-                       "" if rc == 0 and not bad else "assumptions beyond the axioms of the real numbers: %s %s" % ("; ".join(bad), (o + e)[-600:] if rc else ""))
-        ok = rc == 0 and not bad
-    return whole, ok
+    whole = {f: "GenKMFun.%s" % d for f, d in WHOLE.items() if f in acc}
+    p = ctx.write("GenKMFun.v", text)
+    rc, out, err, dt = ctx.coqc(p)
+    if rc != 0:
+        ctx.obligation("gen:GenKMFun.v", False, "generated file does not compile: " + (out + err)[-1500:])
+        return {}, {}
+    oks = {}
+    for f, b in BRIDGES.items():
+        ok = core.run_bridge(ctx, {}, [b + ".v"])
+        if ok:
+            src = core.strip_coq_comments(open(os.path.join(core.COQ, "Bridge", b + ".v")).read())
+            names = re.findall(r"^\s*(?:Lemma|Theorem)\s+([\w']+)", src, re.M)
+            ax = "From Gen Require Import %s.\n" % b + "".join(
+                'Goal True. idtac "THEOREM %s". Abort. Print Assumptions %s.\n' % (n, n) for n in names)
+            rc, o, e, dt = ctx.coqc(ctx.write(b + "Ax.v", ax))
+            got = core.parse_assumptions(o + "\n" + e)
+            bad = ["%s: %s" % (n, sorted(got[n] - core.AX_REALS) if isinstance(got.get(n), set) else got.get(n, "missing"))
+                   for n in names if not (isinstance(got.get(n), set) and got[n] <= core.AX_REALS)]
+            ctx.obligation("closed:" + b, rc == 0 and not bad,
+                           "" if rc == 0 and not bad else "assumptions beyond the axioms of the real numbers: %s %s" % ("; ".join(bad), (o + e)[-600:] if rc else ""))
+            ok = rc == 0 and not bad
+        oks[f] = ok
+    return whole, oks
 
 
+BRIDGES = {"estimateZ0": "KMFunBridge", "estimateFootprint": "KMFpFunBridge"}
 WHOLE = {"estimateZ0": "gen_z0_desc", "estimateFootprint": "gen_fp_desc"}
 
 
